@@ -3,7 +3,10 @@
 package hx
 
 import (
+	"github.com/goghcrow/yae/parser"
 	"github.com/goghcrow/yae/parser/ast"
+	"github.com/goghcrow/yae/parser/lexer"
+	"github.com/goghcrow/yae/parser/oper"
 	"github.com/goghcrow/yae/trans"
 	"github.com/goghcrow/yae/types"
 	"github.com/goghcrow/yae/val"
@@ -218,4 +221,37 @@ func H10_reuse() {
 		}
 	}
 	sv.Reach("compared")
+}
+
+// H10_ops: `o.f(args)` means exactly `f(o, args)` under every operator table:
+// a method call written as the operand of a user operator that binds tighter
+// than every built-in one (but looser than member access) desugars to the
+// same tree as the explicit call in parentheses.
+func H10_ops() {
+	pows := []oper.BP{oper.BP_PREFIX, oper.BP_POSTFIX + 0.5, oper.BP_CALL, oper.BP_CALL + 0.5}
+	p := pows[sv.Choice("power", len(pows))]
+	ops := append([]oper.Operator{}, oper.BuiltIn()...)
+	ops = append(ops, oper.Operator{Kind: "#", BP: p, Fixity: oper.PREFIX}, oper.Operator{Kind: "<>", BP: p, Fixity: oper.INFIX_L})
+	pairs := [][2]string{
+		{"#s.len()", "#(len(s))"},
+		{"1 <> s.len()", "1 <> (len(s))"},
+		{"#a.b.c(1, 2)", "#(c(a.b, 1, 2))"},
+		{"#s.len().g(z)", "#(g(len(s), z))"},
+		{"x <> a.f(y) <> b.g()", "(x <> (f(a, y))) <> (g(b))"},
+		{"-#s.len()", "-(#(len(s)))"},
+	}
+	pr := pairs[sv.Choice("pair", len(pairs))]
+	var d1, d2 ast.Expr
+	cls := sv.Outcome(func() {
+		d1 = trans.Desugar(parser.NewParser(ops).Parse(lexer.NewLexer(ops).Lex(pr[0])))
+		d2 = trans.Desugar(parser.NewParser(ops).Parse(lexer.NewLexer(ops).Lex(pr[1])))
+	})
+	sv.Assert("parses-and-desugars", cls == "ok")
+	if cls != "ok" {
+		return
+	}
+	if Shape(d1) != Shape(d2) {
+		sv.Logf("%s desugars to %s, %s to %s", pr[0], Shape(d1), pr[1], Shape(d2))
+	}
+	sv.Assert("method-call-is-exactly-the-explicit-call", Shape(d1) == Shape(d2) && !hasSugar(d1))
 }
